@@ -26,7 +26,7 @@ ASSUMPTIONS = ['pandas: ffill/bfill(limit), fillna(value, limit), boolean-mask s
                'input immutability seen from the RESULT (review t4 2.1): on every line and in the laws every cell of the result is overwritten and the argument compared with its snapshot '
                '(a writable numpy view of the argument is a finding - C12-E2, repaired); `res is x` for an empty method list and read-only results are skipped. The store model covers `_df_fillna` and, since round k4, `_nona` (FillAlias.nonaPd / nonaArrS)',
                '2-d inputs WITHOUT columns ((n, 0) arrays, `pd.DataFrame(index=idx)`) are generated since round k4 (ops fillna-df0 / fillna-a0 / nona-df0: the reply carries the labels / '
-               'the row count, the result must have no column; ffill_na / ffill_0 raised "ValueError: No objects to concatenate" there - defect C12-E4, repaired 0bb3a3a). Not modelled, not generated: '
+               'the row count, the result must have no column; ffill_na / ffill_0 raised "ValueError: No objects to concatenate" there - defect C12-E4, repaired f835fc3). Not modelled, not generated: '
                '`edge` values other than None / 1 / -1 (outside the docstring; code and model: None / err Other, for arrays as for pandas objects since 002fba9), bool methods (is_num(True)), '
                'float16 and 0-d arrays (pandas raises "No matching signature" / AttributeError)',
                'the `_nona` store (cells record whose buffer they share) assumes, and the overwrite check samples on every nona line: boolean-mask selection and np.isnan own their data, '
